@@ -319,3 +319,137 @@ Proof.
   - verb 14 [a; b] x [c; d] 0x23%N H.
   - verb 15 [a; b] x [c; d] 0x33%N H.
 Qed.
+
+(* ---- the verb is a permutation of the marked range, whatever the range *)
+Lemma swapif_perm : forall b l, Permutation (swapif b l) l.
+Proof. intros [|] l; cbn; [symmetry; apply Permutation_rev|reflexivity]. Qed.
+
+Lemma rearrange_range_perm : forall m rng, Permutation (rearrange_range m rng) rng.
+Proof.
+  intros m rng.
+  destruct (Nat.lt_ge_cases (length rng) (map_l m + map_r m)) as [Hs|Hs].
+  { rewrite rearrange_range_skip by (left; exact Hs). reflexivity. }
+  destruct (Nat.lt_ge_cases MAX_CONTEXT_LENGTH (length rng)) as [Hl|Hl].
+  { rewrite rearrange_range_skip by (right; exact Hl). reflexivity. }
+  set (A := firstn (map_l m) rng). set (t := skipn (map_l m) rng).
+  set (mid := firstn (length t - map_r m) t). set (D := skipn (length t - map_r m) t).
+  assert (E : rng = A ++ mid ++ D).
+  { unfold A, mid, D, t. now rewrite !firstn_skipn. }
+  assert (HA : length A = map_l m) by (unfold A; rewrite firstn_length; lia).
+  assert (Ht : length t = length rng - map_l m) by (unfold t; apply skipn_length).
+  assert (HD : length D = map_r m) by (unfold D; rewrite skipn_length; lia).
+  rewrite E at 1. rewrite rearrange_range_spec by (rewrite <- ?E; auto).
+  rewrite E.
+  etransitivity.
+  { apply Permutation_app; [apply swapif_perm|apply Permutation_app; [reflexivity|apply swapif_perm]]. }
+  etransitivity; [apply Permutation_app_comm|].
+  rewrite <- app_assoc. apply Permutation_app_head. apply Permutation_app_comm.
+Qed.
+
+Lemma rearrange_range_length : forall m rng, length (rearrange_range m rng) = length rng.
+Proof. intros. apply Permutation_length, rearrange_range_perm. Qed.
+
+(* ------------------------------------------------------------------ chain flags and gating *)
+
+Local Open Scope N_scope.
+
+(* without a `feat` table no feature is ever requested: the compiled flags are the defaults *)
+Lemma chain_flags_default : forall c, chain_flags no_feature c = mc_default_flags c.
+Proof.
+  intro c. unfold chain_flags. generalize (mc_default_flags c).
+  induction (mc_features c) as [|f t IH]; intro fl; cbn [fold_left]; [reflexivity|].
+  unfold no_feature at 1 2. rewrite andb_false_r. apply IH.
+Qed.
+
+Lemma has_spec : forall f m, has f m = true <-> N.land f m <> 0.
+Proof.
+  intros. unfold has. rewrite negb_true_iff. split; intro H.
+  - now apply N.eqb_neq.
+  - now apply N.eqb_neq.
+Qed.
+
+(* a subtable runs iff its feature flags meet the chain's compiled flags and its coverage admits
+   the buffer direction — the two tests of `apply`, in the code's terms *)
+Lemma sub_runs_spec : forall flags d s,
+  sub_runs flags d s = true <->
+  N.land (ms_sub_feature_flags s) flags <> 0 /\
+  (N.land (ms_coverage s) 0x20000000 <> 0 \/
+   (dir_vertical d = true <-> N.land (ms_coverage s) 0x80000000 <> 0)).
+Proof.
+  intros. unfold sub_runs, sub_enabled, sub_dir_ok, cov_all_directions, cov_vertical.
+  rewrite andb_true_iff, orb_true_iff, negb_true_iff, N.eqb_neq, has_spec.
+  split; intros [H1 H2]; (split; [exact H1|]).
+  - destruct H2 as [H2|H2]; [left; exact H2|right].
+    apply eqb_prop in H2. rewrite H2. apply has_spec.
+  - destruct H2 as [H2|H2]; [left; exact H2|right].
+    apply eqb_true_iff. rewrite <- has_spec in H2.
+    destruct (dir_vertical d), (has (ms_coverage s) 2147483648); intuition congruence.
+Qed.
+
+(* the step of `run_subtables` on a subtable ttf-parser accepts *)
+Lemma run_subtables_step : forall ng d flags s t p, kind_parses (ms_kind s) = true ->
+  run_subtables ng d flags (s :: t) p =
+  if sub_runs flags d s then (do p1 <- run_subtable ng d s p; run_subtables ng d flags t p1)
+  else run_subtables ng d flags t p.
+Proof. intros. cbn [run_subtables]. rewrite H. reflexivity. Qed.
+
+(* ------------------------------------------------------------------ paired reversals *)
+
+Local Close Scope N_scope.
+Local Open Scope nat_scope.
+
+Definition inplace_inv (b : zbuf) : Prop := dead b = length (pre b).
+
+Lemma blen_arr : forall b, inplace_inv b -> blen b = length (arr b).
+Proof. intros b H. unfold blen, arr. rewrite app_length, H. reflexivity. Qed.
+
+Lemma of_arr_inv : forall b a, inplace_inv b -> length a = length (arr b) -> inplace_inv (of_arr b a).
+Proof.
+  intros b a H L. unfold inplace_inv, of_arr, with_pr. cbn. rewrite firstn_length.
+  unfold arr in L. rewrite app_length in L. unfold inplace_inv in H. lia.
+Qed.
+
+Lemma reverse_arr : forall b b', inplace_inv b -> reverse b = Ok b' ->
+  arr b' = rev (arr b) /\ inplace_inv b' /\ dead b' = dead b.
+Proof.
+  intros b b' Hinv H. unfold reverse, reverse_range in H. rewrite (blen_arr b Hinv) in H.
+  rewrite Nat.sub_0_r in H.
+  destruct (length (arr b) <? 2) eqn:E.
+  - inversion H; subst b'. apply Nat.ltb_lt in E. split; [|split; auto].
+    destruct (arr b) as [|x [|y l]]; cbn in *; try reflexivity; lia.
+  - rewrite Nat.ltb_irrefl in H. inversion H; subst b'. clear H.
+    unfold slice. rewrite Nat.sub_0_r. cbn [skipn firstn app].
+    rewrite firstn_all, skipn_all, app_nil_r.
+    split; [apply arr_of_arr|]. split; [|reflexivity].
+    apply of_arr_inv; [exact Hinv|apply rev_length].
+Qed.
+
+Lemma maybe_reverse_twice : forall r b b0 b1, inplace_inv b ->
+  maybe_reverse r b = Ok b0 -> maybe_reverse r b0 = Ok b1 -> arr b1 = arr b /\ dead b1 = dead b.
+Proof.
+  intros [|] b b0 b1 Hinv H0 H1; cbn in *.
+  - destruct (reverse_arr _ _ Hinv H0) as (A0 & I0 & D0).
+    destruct (reverse_arr _ _ I0 H1) as (A1 & I1 & D1).
+    split; [rewrite A1, A0; apply rev_involutive|congruence].
+  - inversion H0; inversion H1; subst. auto.
+Qed.
+
+(* run_subtable brackets apply_subtable with the same reversal decision on both sides *)
+Lemma run_subtable_paired : forall ng d s p p', run_subtable ng d s p = Ok p' ->
+  exists b0 b1 ops amb,
+    maybe_reverse (sub_reverse d s) (p_buf p) = Ok b0 /\
+    apply_subtable (ms_kind s) ng b0 (p_ops p) = Ok (b1, ops, amb) /\
+    maybe_reverse (sub_reverse d s) b1 = Ok (p_buf p').
+Proof.
+  intros ng d s p p' H. unfold run_subtable in H.
+  destruct (maybe_reverse (sub_reverse d s) (p_buf p)) as [b0|] eqn:E0; cbn in H; [|discriminate].
+  destruct (apply_subtable (ms_kind s) ng b0 (p_ops p)) as [[[b1 ops] amb]|] eqn:E1; cbn in H; [|discriminate].
+  destruct (maybe_reverse (sub_reverse d s) b1) as [b2|] eqn:E2; cbn in H; [|discriminate].
+  inversion H; subst p'. cbn. exists b0, b1, ops, amb. auto.
+Qed.
+
+(* the reverse decision, as the table in the code's comment: logical => backwards bit;
+   otherwise backwards bit XOR buffer direction backward *)
+Lemma sub_reverse_spec : forall d s,
+  sub_reverse d s = (if cov_logical s then cov_backwards s else negb (Bool.eqb (cov_backwards s) (dir_backward d))).
+Proof. intros. unfold sub_reverse. destruct (cov_logical s), (cov_backwards s), (dir_backward d); reflexivity. Qed.
